@@ -7,6 +7,7 @@ import (
 	"sync"
 
 	"github.com/zishang520/engine.io-go-parser/packet"
+	"github.com/zishang520/engine.io/v2/events"
 	"github.com/zishang520/engine.io/v2/log"
 	"github.com/zishang520/engine.io/v2/types"
 	"github.com/zishang520/engine.io/v2/webtransport"
@@ -21,6 +22,9 @@ type webTransport struct {
 
 	session *types.WebTransportConn
 	mu      sync.Mutex
+	// the reader starts with the first "packet" listener: what it reads before anybody
+	// listens (the probe of an upgrade candidate, typically) would be emitted to nobody
+	reading sync.Once
 }
 
 // WebTransport transport
@@ -52,10 +56,17 @@ func (w *webTransport) Construct(ctx *types.HttpContext) {
 		w.OnClose()
 	})
 
-	go w.message()
-
 	w.SetWritable(true)
 	w.SetPerMessageDeflate(nil)
+}
+
+// On registers listeners; the first "packet" listener starts the reader.
+func (w *webTransport) On(evt events.EventName, listeners ...events.Listener) error {
+	err := w.Transport.On(evt, listeners...)
+	if evt == "packet" {
+		w.reading.Do(func() { go w.message() })
+	}
+	return err
 }
 
 // Transport name
